@@ -1,168 +1,8 @@
-import MorfuseModel.Archive.Value
-import MorfuseModel.Archive.RoundTrip
+import MorfuseModel.Archive.ValueArrays
 /-! Round trip of script values: the data-directed reader `readValue`, run on what `valCalls` wrote,
 returns the value (archive indices in the pointer slots) and leaves the state the schema-directed reader of
-the same calls would leave. -/
+the same calls would leave.  (`ValueDefs`: definitions and hypotheses; `ValueCases`: the kinds without nested values.) -/
 namespace Morfuse.Archive
-
-theorem encItems_append (t : List Lbl) (a b : List Item) :
-    encItems t (a ++ b) = ((encItems (encItems t a).1 b).1, (encItems t a).2 ++ (encItems (encItems t a).1 b).2) := by
-  induction a generalizing t with
-  | nil => simp [encItems]
-  | cons i is ih => simp [encItems, ih, List.append_assoc]
-
-theorem regLabels_append (a b : List Item) : regLabels (a ++ b) = regLabels a ++ regLabels b := by
-  induction a with
-  | nil => simp [regLabels]
-  | cons i is ih => simp [regLabels, ih, List.append_assoc]
-
-theorem newFix_append (T : List Lbl) (a b : List Item) : newFix T (a ++ b) = newFix T b ++ newFix T a := by
-  induction a with
-  | nil => simp [newFix]
-  | cons i is ih => simp [newFix, ih, List.append_assoc]
-
-theorem addUnique_of_mem {t : List Lbl} {o : Lbl} (h : o ∈ t) : (addUnique t o).1 = t := by
-  unfold addUnique; simp [h]
-
-mutual
-/-- the table `valCalls` returns is the table the writer has after performing the calls -/
-theorem valCalls_table : (v : Value) → (t : List Lbl) → (self : Lbl) →
-    (encItems t (valCalls t self v).2).1 = (valCalls t self v).1
-  | .none, t, self => by simp [valCalls, encItems, encItem]
-  | .int _, t, self => by simp [valCalls, encItems, encItem]
-  | .float _, t, self => by simp [valCalls, encItems, encItem]
-  | .char _, t, self => by simp [valCalls, encItems, encItem]
-  | .string _, t, self => by simp [valCalls, encItems, encItem]
-  | .constString none, t, self => by simp [valCalls, encItems, encItem]
-  | .constString (some _), t, self => by simp [valCalls, encItems, encItem]
-  | .vector _, t, self => by simp [valCalls, encItems, encItem]
-  | .listener o, t, self => by
-    simp only [valCalls, encItems, encItem]
-    split <;> simp_all
-  | .constArrayRef h, t, self => by
-    simp only [valCalls]
-    split
-    · rename_i hm
-      have : (addUnique (addUnique t self).1 h).1 = (addUnique t self).1 := addUnique_of_mem hm
-      simp only [encItems, encItem]
-      split <;> simp_all
-    · simp [encItems, encItem]
-  | .constArray h rc elems, t, self => by
-    simp only [valCalls]
-    split
-    · rename_i hm
-      have : (addUnique (addUnique t self).1 h).1 = (addUnique t self).1 := addUnique_of_mem hm
-      simp only [encItems, encItem]
-      split <;> simp_all
-    · have := elemCalls_table elems (addUnique (addUnique t self).1 h).1
-      simp only [List.cons_append, List.nil_append, encItems, encItem]
-      exact this
-theorem elemCalls_table : (es : List (Lbl × Value)) → (t : List Lbl) →
-    (encItems t (elemCalls t es).2).1 = (elemCalls t es).1
-  | [], t => by simp [elemCalls, encItems]
-  | (s, v) :: es, t => by
-    simp only [elemCalls]
-    rw [encItems_append]
-    simp only [valCalls_table v t s]
-    exact elemCalls_table es _
-end
-
-end Morfuse.Archive
-
-namespace Morfuse.Archive
-
-mutual
-/-- a value as the reading calls return it before `Close`: pointer slots hold archive indices -/
-def rawValue (T : List Lbl) : Value → Value
-  | .listener o => .listener (if o = 0 then 0 else idxIn T o)
-  | .constArrayRef h => .constArrayRef (if h = 0 then 0 else idxIn T h)
-  | .constArray h rc es => .constArray h rc (rawElems T es)
-  | .none => .none
-  | .int v => .int v
-  | .float v => .float v
-  | .char v => .char v
-  | .string bs => .string bs
-  | .constString s => .constString s
-  | .vector bs => .vector bs
-def rawElems (T : List Lbl) : List (Lbl × Value) → List (Lbl × Value)
-  | [] => []
-  | (l, v) :: es => (l, rawValue T v) :: rawElems T es
-end
-
-mutual
-def depth : Value → Nat
-  | .constArray _ _ es => 1 + depthE es
-  | _ => 0
-def depthE : List (Lbl × Value) → Nat
-  | [] => 0
-  | (_, v) :: es => max (depth v) (depthE es)
-end
-
-mutual
-/-- hypotheses of the value round trip (`t`: the writer's object table when the value is archived) -/
-def WFValue (cfg : Cfg) (t : List Lbl) (self : Lbl) : Value → Prop
-  | .int v => v < 2 ^ 64
-  | .float v => v < 2 ^ 32
-  | .char v => v < 256
-  | .string bs => strAlloc bs.length < cfg.allocLimit ∧ (cfg.valueStrFresh = true ∨ bs ≠ [])
-  | .constString (some bs) => strAlloc bs.length < cfg.allocLimit
-  | .vector bs => bs.length = 12
-  | .constArrayRef h => h ≠ 0 ∧ h ∈ (addUnique t self).1
-  | .constArray h rc es =>
-    h ∉ (addUnique t self).1 ∧ rc < 2 ^ 32 ∧ es.length < 2 ^ 32 ∧ (es.length + 1) * svSize < cfg.allocLimit ∧
-      WFElems cfg (addUnique (addUnique t self).1 h).1 es
-  | _ => True
-def WFElems (cfg : Cfg) (t : List Lbl) : List (Lbl × Value) → Prop
-  | [] => True
-  | (s, v) :: es => WFValue cfg t s v ∧ WFElems cfg (valCalls t s v).1 es
-end
-
-/-- position of the variable itself, then the kind byte: what every `ArchiveInternal` starts with -/
-theorem value_head_ok {α : Type} (cfg : Cfg) (self : Lbl) (i c : Nat) (rest : Bytes) (pos : Nat) (R : List Lbl)
-    (F : List Nat) (k : Bytes → RS → Res α) (h1 : 1 ≤ i) (h2 : i ≤ R.length) (ha : R.length * 8 < cfg.allocLimit)
-    (hi : i < 2 ^ 32) :
-    ((readData cfg (Prim.pos).tag 4 (some (zeros 4)) ⟨encPrim .pos i ++ (encPrim .byte c ++ rest), pos, true, R, F⟩).bind
-      fun pb s => (addAt cfg (unle pb) self s).bind fun _ s => (readData cfg (Prim.byte).tag 1 none s).bind k) =
-    k (le 1 c) ⟨rest, pos + 8 + 5, true, R.set (i - 1) self, F⟩ := by
-  simp only [encPrim, List.append_assoc]
-  have e1 := readData_ok cfg (Prim.pos).tag (Prim.tag_lt _) (le (Prim.pos).width i)
-    (tagB (Prim.byte).tag ++ (le (Prim.byte).width c ++ rest)) (some (zeros 4)) pos R F 4 (by simp [Prim.width])
-  simp only [List.append_assoc] at e1
-  rw [e1]
-  have hu : unle (le (Prim.pos).width i) = i := unle_le_of_lt (by simpa [Prim.width] using hi)
-  simp only [Res.bind, hu]
-  rw [addAt_ok cfg i self _ _ true R F h1 h2 ha]
-  simp only [Res.bind]
-  have e2 := readData_ok cfg (Prim.byte).tag (Prim.tag_lt _) (le (Prim.byte).width c) rest none (pos + 4 + 4)
-    (R.set (i - 1) self) F 1 (by simp [Prim.width])
-  simp only [List.append_assoc] at e2
-  rw [e2]
-  simp [Prim.width, Nat.add_assoc]
-
-end Morfuse.Archive
-
-namespace Morfuse.Archive
-
-theorem unle_le1 (c : Nat) (h : c < 256) : unle (le 1 c) = c := unle_le_of_lt (by simpa using h)
-
-theorem readDataU_ok (cfg : Cfg) (p : Prim) (v : Nat) (tail : Bytes) (pos : Nat) (R : List Lbl) (F : List Nat)
-    (w : Nat) (hw : p.width = w) :
-    readData cfg p.tag w none ⟨encPrim p v ++ tail, pos, true, R, F⟩ =
-      .ok (le w v) ⟨tail, pos + 4 + w, true, R, F⟩ := by
-  subst hw
-  simp only [encPrim]
-  exact readData_ok cfg p.tag (Prim.tag_lt _) (le p.width v) tail none pos R F p.width (le_length _ _)
-
-theorem readPtr_null' (cfg : Cfg) (safe : Bool) (tail : Bytes) (pos : Nat) (R : List Lbl) (F : List Nat) :
-    readPtr cfg safe ⟨tagB (ptrTag safe) ++ (le 4 nullIdx ++ tail), pos, true, R, F⟩ =
-      .ok 0 ⟨tail, pos + 8, true, R, F⟩ := by
-  rw [← List.append_assoc]; exact readPtr_null cfg safe tail pos R F
-
-theorem readPtr_idx' (cfg : Cfg) (safe : Bool) (i : Nat) (tail : Bytes) (pos : Nat) (R : List Lbl) (F : List Nat)
-    (h1 : 1 ≤ i) (h2 : i ≤ R.length) (h3 : R.length < nullIdx) :
-    readPtr cfg safe ⟨tagB (ptrTag safe) ++ (le 4 i ++ tail), pos, true, R, F⟩ =
-      .ok i ⟨tail, pos + 8, true, R, i :: F⟩ := by
-  rw [← List.append_assoc]; exact readPtr_idx cfg safe i tail pos R F h1 h2 h3
 
 mutual
 theorem readValue_enc (cfg : Cfg) (T : List Lbl) (hT : T.length < nullIdx) (hA : T.length * 8 < cfg.allocLimit) :
@@ -179,189 +19,63 @@ theorem readValue_enc (cfg : Cfg) (T : List Lbl) (hT : T.length < nullIdx) (hA :
   | .string _, 0, _, _, _, _, _, _, _, hd, _, _, _, _ => by simp at hd
   | .constString _, 0, _, _, _, _, _, _, _, hd, _, _, _, _ => by simp at hd
   | .vector _, 0, _, _, _, _, _, _, _, hd, _, _, _, _ => by simp at hd
-  | .listener _, 0, _, _, _, _, _, _, _, hd, _, _, _, _ => by simp at hd
-  | .constArrayRef _, 0, _, _, _, _, _, _, _, hd, _, _, _, _ => by simp at hd
+  | .link _ _ _, 0, _, _, _, _, _, _, _, hd, _, _, _, _ => by simp at hd
+  | .holderRef _ _, 0, _, _, _, _, _, _, _, hd, _, _, _, _ => by simp at hd
+  | .array _ _ _ _ _ _, 0, _, _, _, _, _, _, _, hd, _, _, _, _ => by simp at hd
+  | .pointer _ _, 0, _, _, _, _, _, _, _, hd, _, _, _, _ => by simp at hd
   | .constArray _ _ _, 0, _, _, _, _, _, _, _, hd, _, _, _, _ => by simp at hd
-  | .none, fuel + 1, self, t, tail, pos, R, F, sup', _, hp, _, hR, _ => by
-    simp only [valCalls] at hp
-    obtain ⟨e1, e2, e3, e4⟩ := idx_bounds hp
-    have hn := nullIdx_lt
-    simp only [valCalls, encItems, encItem, e1, List.append_assoc, List.append_nil, supplyOf, List.nil_append,
-      rawValue, regLabels, regLabelsItem, newFix, newFixItem, List.foldl_cons, List.foldl_nil]
-    rw [readValue, value_head_ok cfg self (idxIn T self) 0 _ pos R F _ e2 (by omega) (by omega) (by omega)]
-    simp [unle_le1, setL, e4, Prim.width]
-  | .int v, fuel + 1, self, t, tail, pos, R, F, sup', _, hp, hw, hR, _ => by
-    simp only [WFValue] at hw
-    simp only [valCalls] at hp
-    obtain ⟨e1, e2, e3, e4⟩ := idx_bounds hp
-    have hn := nullIdx_lt
-    simp only [valCalls, encItems, encItem, e1, List.append_assoc, List.append_nil, supplyOf, List.nil_append,
-      rawValue, regLabels, regLabelsItem, newFix, newFixItem, List.foldl_cons, List.foldl_nil]
-    rw [readValue, value_head_ok cfg self (idxIn T self) 2 _ pos R F _ e2 (by omega) (by omega) (by omega)]
-    simp only [unle_le1 2 (by decide)]
-    rw [readPrim_ok cfg .i64 v (by simpa [Prim.width] using hw)]
-    simp [Res.bind, setL, e4, Prim.width]
-  | .float v, fuel + 1, self, t, tail, pos, R, F, sup', _, hp, hw, hR, _ => by
-    simp only [WFValue] at hw
-    simp only [valCalls] at hp
-    obtain ⟨e1, e2, e3, e4⟩ := idx_bounds hp
-    have hn := nullIdx_lt
-    simp only [valCalls, encItems, encItem, e1, List.append_assoc, List.append_nil, supplyOf, List.nil_append,
-      rawValue, regLabels, regLabelsItem, newFix, newFixItem, List.foldl_cons, List.foldl_nil]
-    rw [readValue, value_head_ok cfg self (idxIn T self) 3 _ pos R F _ e2 (by omega) (by omega) (by omega)]
-    simp only [unle_le1 3 (by decide)]
-    rw [readPrim_ok cfg .f32 v (by simpa [Prim.width] using hw)]
-    simp [Res.bind, setL, e4, Prim.width]
-  | .char v, fuel + 1, self, t, tail, pos, R, F, sup', _, hp, hw, hR, _ => by
-    simp only [WFValue] at hw
-    simp only [valCalls] at hp
-    obtain ⟨e1, e2, e3, e4⟩ := idx_bounds hp
-    have hn := nullIdx_lt
-    simp only [valCalls, encItems, encItem, e1, List.append_assoc, List.append_nil, supplyOf, List.nil_append,
-      rawValue, regLabels, regLabelsItem, newFix, newFixItem, List.foldl_cons, List.foldl_nil]
-    rw [readValue, value_head_ok cfg self (idxIn T self) 4 _ pos R F _ e2 (by omega) (by omega) (by omega)]
-    simp only [unle_le1 4 (by decide)]
-    rw [readPrim_ok cfg .chr v (by simpa [Prim.width] using hw)]
-    simp [Res.bind, setL, e4, Prim.width]
-  | .string bs, fuel + 1, self, t, tail, pos, R, F, sup', _, hp, hw, hR, hl => by
-    simp only [WFValue] at hw
-    simp only [valCalls] at hp
-    obtain ⟨e1, e2, e3, e4⟩ := idx_bounds hp
-    have hn := nullIdx_lt
-    simp only [valCalls, encItems, encItem, List.append_nil, List.length_append] at hl
-    have hl2 : bs.length < 2 ^ 64 := by rw [encStr_length] at hl; split at hl <;> omega
-    simp only [valCalls, encItems, encItem, e1, List.append_assoc, List.append_nil, supplyOf, List.nil_append,
-      rawValue, regLabels, regLabelsItem, newFix, newFixItem, List.foldl_cons, List.foldl_nil]
-    rw [readValue, value_head_ok cfg self (idxIn T self) 1 _ pos R F _ e2 (by omega) (by omega) (by omega)]
-    simp only [unle_le1 1 (by decide)]
-    rw [readStr_ok cfg bs (strInit cfg.valueStrFresh) tail _ _ F hl2 hw.1 (by
-      intro h0
-      rcases hw.2 with hf | hne
-      · simp [strInit, hf]
-      · exact absurd (List.eq_nil_of_length_eq_zero h0) hne)]
-    simp [Res.bind, setL, e4, Prim.width]
-    omega
-  | .constString none, fuel + 1, self, t, tail, pos, R, F, sup', _, hp, _, hR, _ => by
-    simp only [valCalls] at hp
-    obtain ⟨e1, e2, e3, e4⟩ := idx_bounds hp
-    have hn := nullIdx_lt
-    simp only [valCalls, encItems, encItem, e1, List.append_assoc, List.append_nil, supplyOf, List.nil_append,
-      rawValue, regLabels, regLabelsItem, newFix, newFixItem, List.foldl_cons, List.foldl_nil]
-    rw [readValue, value_head_ok cfg self (idxIn T self) 5 _ pos R F _ e2 (by omega) (by omega) (by omega)]
-    simp only [unle_le1 5 (by decide)]
-    rw [readDataU_ok cfg .byte 0 _ _ _ _ 1 rfl]
-    simp [Res.bind, setL, e4, Prim.width, unle_le1]
-  | .constString (some bs), fuel + 1, self, t, tail, pos, R, F, sup', _, hp, hw, hR, hl => by
-    simp only [WFValue] at hw
-    simp only [valCalls] at hp
-    obtain ⟨e1, e2, e3, e4⟩ := idx_bounds hp
-    have hn := nullIdx_lt
-    simp only [valCalls, encItems, encItem, List.append_nil, List.length_append] at hl
-    have hl2 : bs.length < 2 ^ 64 := by rw [encStr_length] at hl; split at hl <;> omega
-    simp only [valCalls, encItems, encItem, e1, List.append_assoc, List.append_nil, supplyOf, List.nil_append,
-      rawValue, regLabels, regLabelsItem, newFix, newFixItem, List.foldl_cons, List.foldl_nil]
-    rw [readValue, value_head_ok cfg self (idxIn T self) 5 _ pos R F _ e2 (by omega) (by omega) (by omega)]
-    simp only [unle_le1 5 (by decide)]
-    rw [readDataU_ok cfg .byte 1 _ _ _ _ 1 rfl]
-    simp only [Res.bind, Prim.width, unle_le1 1 (by decide), Nat.one_ne_zero, ↓reduceIte]
-    rw [readStr_ok cfg bs [] tail _ _ F hl2 hw (fun _ => rfl)]
-    simp [Res.bind, setL, e4, Prim.width]
-    omega
-  | .vector bs, fuel + 1, self, t, tail, pos, R, F, sup', _, hp, hw, hR, _ => by
-    simp only [WFValue] at hw
-    simp only [valCalls] at hp
-    obtain ⟨e1, e2, e3, e4⟩ := idx_bounds hp
-    have hn := nullIdx_lt
-    simp only [valCalls, encItems, encItem, e1, List.append_assoc, List.append_nil, supplyOf, List.nil_append,
-      rawValue, regLabels, regLabelsItem, newFix, newFixItem, List.foldl_cons, List.foldl_nil, encRaw]
-    rw [readValue, value_head_ok cfg self (idxIn T self) 13 _ pos R F _ e2 (by omega) (by omega) (by omega)]
-    simp only [unle_le1 13 (by decide)]
-    have r1 := fun tl ps old => readData_ok cfg rawTag (tagOf_lt _) bs tl old ps (R.set (idxIn T self - 1) self) F 12 hw
-    simp only [List.append_assoc] at r1
-    rw [r1]
-    simp only [Res.bind]
-    rw [r1]
-    simp only [Res.bind]
-    rw [r1]
-    simp [Res.bind, setL, e4, Prim.width, hw]
-  | .listener o, fuel + 1, self, t, tail, pos, R, F, sup', _, hp, _, hR, _ => by
-    have hn := nullIdx_lt
-    by_cases ho : o = 0
-    · subst ho
-      simp only [valCalls, ↓reduceIte] at hp
-      obtain ⟨e1, e2, e3, e4⟩ := idx_bounds hp
-      simp only [valCalls, encItems, encItem, e1, List.append_assoc, List.append_nil, supplyOf, List.nil_append,
-        rawValue, regLabels, regLabelsItem, newFix, newFixItem, List.foldl_cons, List.foldl_nil, ↓reduceIte]
-      rw [readValue, value_head_ok cfg self (idxIn T self) 6 _ pos R F _ e2 (by omega) (by omega) (by omega)]
-      simp only [unle_le1 6 (by decide)]
-      rw [readPtr_null']
-      simp [Res.bind, setL, e4, Prim.width]
-    · simp only [valCalls, ho, ↓reduceIte] at hp
-      have hp1 : (addUnique t self).1 <+: T := (addUnique_prefix _ o).trans hp
-      obtain ⟨e1, e2, e3, e4⟩ := idx_bounds hp1
-      obtain ⟨f1, f2, f3, _⟩ := idx_bounds hp
-      simp only [valCalls, encItems, encItem, e1, f1, List.append_assoc, List.append_nil, supplyOf, List.nil_append,
-        rawValue, regLabels, regLabelsItem, newFix, newFixItem, List.foldl_cons, List.foldl_nil, ho, ↓reduceIte]
-      rw [readValue, value_head_ok cfg self (idxIn T self) 6 _ pos R F _ e2 (by omega) (by omega) (by omega)]
-      simp only [unle_le1 6 (by decide)]
-      rw [readPtr_idx' cfg true (idxIn T o) tail _ _ F f2 (by simp; omega) (by simp; omega)]
-      simp [Res.bind, setL, e4, Prim.width]
-  | .constArrayRef h, fuel + 1, self, t, tail, pos, R, F, sup', _, hp, hw, hR, _ => by
-    simp only [WFValue] at hw
-    obtain ⟨h0, hm⟩ := hw
-    have hn := nullIdx_lt
-    simp only [valCalls, hm, ↓reduceIte] at hp
-    obtain ⟨e1, e2, e3, e4⟩ := idx_bounds hp
-    have hp2 : (addUnique (addUnique t self).1 h).1 <+: T := by rw [addUnique_of_mem hm]; exact hp
-    obtain ⟨f1, f2, f3, _⟩ := idx_bounds hp2
-    simp only [valCalls, hm, encItems, encItem, e1, f1, List.append_assoc, List.append_nil, supplyOf, List.nil_append,
-      rawValue, regLabels, regLabelsItem, newFix, newFixItem, List.foldl_cons, List.foldl_nil, h0, ↓reduceIte]
-    rw [readValue, value_head_ok cfg self (idxIn T self) 9 _ pos R F _ e2 (by omega) (by omega) (by omega)]
-    simp only [unle_le1 9 (by decide)]
-    rw [readDataU_ok cfg .bool 0 _ _ _ _ 1 rfl]
-    simp only [guardKind, Res.bind, Prim.width, unle_le1 0 (by decide), ↓reduceIte]
-    rw [readPtr_idx' cfg false (idxIn T h) tail _ _ F f2 (by simp; omega) (by simp; omega)]
-    simp [Res.bind, setL, e4, Prim.width]
-  | .constArray h rc es, fuel + 1, self, t, tail, pos, R, F, sup', hd, hp, hw, hR, hl => by
-    simp only [WFValue] at hw
-    obtain ⟨hm, hrc, hn32, hal, hwe⟩ := hw
-    have hn := nullIdx_lt
-    simp only [depth] at hd
-    simp only [valCalls, hm, ↓reduceIte] at hp hl
-    have hp2 : (addUnique (addUnique t self).1 h).1 <+: T := (elemCalls_table es _ ▸ encItems_prefix _ _).trans hp
-    have hp1 : (addUnique t self).1 <+: T := (addUnique_prefix _ h).trans hp2
-    obtain ⟨e1, e2, e3, e4⟩ := idx_bounds hp1
-    obtain ⟨f1, f2, f3, f4⟩ := idx_bounds hp2
-    simp only [List.cons_append, List.nil_append, encItems, encItem, List.length_append, List.append_nil] at hl
-    simp only [valCalls, hm, ↓reduceIte, List.cons_append, List.nil_append, encItems, encItem, e1, f1, List.append_assoc,
-      supplyOf, List.cons_append, rawValue, regLabels, regLabelsItem, newFix, newFixItem, List.foldl_cons,
-      List.foldl_nil, List.append_nil]
-    rw [readValue, value_head_ok cfg self (idxIn T self) 9 _ pos R F _ e2 (by omega) (by omega) (by omega)]
-    simp only [unle_le1 9 (by decide)]
-    rw [readDataU_ok cfg .bool 1 _ _ _ _ 1 rfl]
-    simp only [guardKind, Res.bind, Prim.width, unle_le1 1 (by decide), Nat.one_ne_zero, ↓reduceIte, Supply.next]
-    have e5 := readData_ok cfg (Prim.pos).tag (Prim.tag_lt _) (le (Prim.pos).width (idxIn T h))
-    simp only [encPrim, List.append_assoc] at e5 ⊢
-    rw [e5 _ (some (zeros 4)) _ _ F 4 (by simp [Prim.width])]
-    have hu : unle (le (Prim.pos).width (idxIn T h)) = idxIn T h := unle_le_of_lt (by simp [Prim.width]; omega)
-    simp only [Res.bind, hu]
-    rw [addAt_ok cfg (idxIn T h) h _ _ true _ F f2 (by simp; omega) (by simp; omega)]
-    simp only [Res.bind]
-    have e6 := readPrim_ok cfg .u32 rc (by simpa [Prim.width] using hrc)
-    simp only [encPrim, List.append_assoc] at e6
-    rw [e6]
-    simp only [Res.bind]
-    have e7 := readData_ok cfg (Prim.u32).tag (Prim.tag_lt _) (le (Prim.u32).width es.length)
-    simp only [List.append_assoc] at e7
-    rw [e7 _ none _ _ F 4 (by simp [Prim.width])]
-    have hu2 : unle (le (Prim.u32).width es.length) = es.length := unle_le_of_lt (by simpa [Prim.width] using hn32)
-    have hna : ¬ ((es.length + 1) * svSize ≥ cfg.allocLimit) := by omega
-    simp only [Res.bind, hu2, hna, ↓reduceIte]
-    rw [readElems_enc cfg T hT hA es fuel _ tail _ _ F sup' (by omega) (elemCalls_table es _ ▸ hp) hwe
+  | .none, fuel + 1, self, t, tail, pos, R, F, sup', hd, hp, hw, hR, hl => rve_case1 cfg T hT hA  fuel self t tail pos R F sup' hd hp hw hR hl
+  | .int v, fuel + 1, self, t, tail, pos, R, F, sup', hd, hp, hw, hR, hl => rve_case2 cfg T hT hA v fuel self t tail pos R F sup' hd hp hw hR hl
+  | .float v, fuel + 1, self, t, tail, pos, R, F, sup', hd, hp, hw, hR, hl => rve_case3 cfg T hT hA v fuel self t tail pos R F sup' hd hp hw hR hl
+  | .char v, fuel + 1, self, t, tail, pos, R, F, sup', hd, hp, hw, hR, hl => rve_case4 cfg T hT hA v fuel self t tail pos R F sup' hd hp hw hR hl
+  | .string bs, fuel + 1, self, t, tail, pos, R, F, sup', hd, hp, hw, hR, hl => rve_case5 cfg T hT hA bs fuel self t tail pos R F sup' hd hp hw hR hl
+  | .constString none, fuel + 1, self, t, tail, pos, R, F, sup', hd, hp, hw, hR, hl => rve_case6 cfg T hT hA  fuel self t tail pos R F sup' hd hp hw hR hl
+  | .constString (some bs), fuel + 1, self, t, tail, pos, R, F, sup', hd, hp, hw, hR, hl => rve_case7 cfg T hT hA bs fuel self t tail pos R F sup' hd hp hw hR hl
+  | .vector bs, fuel + 1, self, t, tail, pos, R, F, sup', hd, hp, hw, hR, hl => rve_case8 cfg T hT hA bs fuel self t tail pos R F sup' hd hp hw hR hl
+  | .link c safe o, fuel + 1, self, t, tail, pos, R, F, sup', hd, hp, hw, hR, hl => rve_case9 cfg T hT hA c safe o fuel self t tail pos R F sup' hd hp hw hR hl
+  | .holderRef c h, fuel + 1, self, t, tail, pos, R, F, sup', hd, hp, hw, hR, hl => rve_case10 cfg T hT hA c h fuel self t tail pos R F sup' hd hp hw hR hl
+  | .constArray h rc es, fuel + 1, self, t, tail, pos, R, F, sup', hd, hp, hw, hR, hl =>
+    rve_constArray cfg T hT hA h rc es fuel (readElems_enc cfg T hT hA es fuel) self t tail pos R F sup' hd hp hw hR hl
+  | .pointer p vars, fuel + 1, self, t, tail, pos, R, F, sup', hd, hp, hw, hR, hl => rve_case11 cfg T hT hA p vars fuel self t tail pos R F sup' hd hp hw hR hl
+  | .array h rc tl th tli kvs, fuel + 1, self, t, tail, pos, R, F, sup', hd, hp, hw, hR, hl =>
+    rve_array cfg T hT hA h rc tl th tli kvs fuel (readPairs_enc cfg T hT hA kvs fuel) self t tail pos R F sup' hd hp hw hR hl
+theorem readPairs_enc (cfg : Cfg) (T : List Lbl) (hT : T.length < nullIdx) (hA : T.length * 8 < cfg.allocLimit) :
+    (es : List (Lbl × Value)) → (fuel : Nat) → (t : List Lbl) → (tail : Bytes) → (pos : Nat) → (R : List Lbl) →
+    (F : List Nat) → (sup' : Supply) → pairsOk es = true → depthE es < fuel → (encItems t (elemCalls t es).2).1 <+: T →
+    WFElems cfg t es → R.length = T.length → (encItems t (elemCalls t es).2).2.length < 2 ^ 63 →
+    readPairsWith (readValue cfg fuel) (es.length / 2) (supplyOfElems es ++ sup') ⟨(encItems t (elemCalls t es).2).2 ++ tail, pos, true, R, F⟩ =
+      .ok (rawElems T es, sup') ⟨tail, pos + (encItems t (elemCalls t es).2).2.length, true,
+        (regLabels (elemCalls t es).2).foldl (setL T) R, newFix T (elemCalls t es).2 ++ F⟩
+  | [], fuel, t, tail, pos, R, F, sup', _, _, _, _, _, _ => by
+    simp [readPairsWith, elemCalls, encItems, supplyOfElems, rawElems, regLabels, newFix]
+  | [_], _, _, _, _, _, _, _, hpo, _, _, _, _, _ => by simp [pairsOk] at hpo
+  | (l, k) :: (l2, v) :: es, fuel, t, tail, pos, R, F, sup', hpo, hd, hp, hw, hR, hl => by
+    simp only [WFElems] at hw
+    simp only [depthE] at hd
+    simp only [pairsOk, Bool.and_eq_true] at hpo
+    simp only [elemCalls, encItems_append, valCalls_table] at hp hl
+    have hp2 : (valCalls (valCalls t l k).1 l2 v).1 <+: T := by
+      have := encItems_prefix (elemCalls (valCalls (valCalls t l k).1 l2 v).1 es).2 (valCalls (valCalls t l k).1 l2 v).1
+      exact this.trans hp
+    have hp1 : (valCalls t l k).1 <+: T := by
+      have := encItems_prefix (valCalls (valCalls t l k).1 l2 v).2 (valCalls t l k).1
+      rw [valCalls_table] at this
+      exact this.trans hp2
+    simp only [List.length_append] at hl
+    have hlen : ((l, k) :: (l2, v) :: es).length / 2 = es.length / 2 + 1 := by simp; omega
+    simp only [elemCalls, encItems_append, valCalls_table, supplyOfElems, List.cons_append,
+      List.append_assoc, rawElems, regLabels_append, newFix_append, List.foldl_append]
+    rw [hlen, readPairsWith]
+    simp only [Supply.next]
+    rw [readValue_enc cfg T hT hA k fuel l t _ pos R F (l2 :: (supplyOf v ++ (supplyOfElems es ++ sup'))) (by omega) hp1 hw.1 hR
+      (by omega)]
+    simp only [Res.bind, Supply.next]
+    rw [readValue_enc cfg T hT hA v fuel l2 (valCalls t l k).1 _ _ _ _ (supplyOfElems es ++ sup') (by omega) hp2 hw.2.1
       (by simp [hR]) (by omega)]
-    simp [Res.bind, setL, e4, f4, Prim.width, regLabels_append, newFix_append, List.foldl_append, regLabels,
-      regLabelsItem, newFix, newFixItem]
-    omega
+    simp only [Res.bind, rawValue_hashable, hpo.1, Bool.not_true, Bool.false_eq_true, ↓reduceIte]
+    rw [readPairs_enc cfg T hT hA es fuel (valCalls (valCalls t l k).1 l2 v).1 tail _ _ _ sup' hpo.2 (by omega) hp hw.2.2
+      (by simp [hR]) (by omega)]
+    simp [Res.bind, Nat.add_assoc]
 theorem readElems_enc (cfg : Cfg) (T : List Lbl) (hT : T.length < nullIdx) (hA : T.length * 8 < cfg.allocLimit) :
     (es : List (Lbl × Value)) → (fuel : Nat) → (t : List Lbl) → (tail : Bytes) → (pos : Nat) → (R : List Lbl) →
     (F : List Nat) → (sup' : Supply) → depthE es < fuel → (encItems t (elemCalls t es).2).1 <+: T → WFElems cfg t es →
